@@ -95,6 +95,26 @@ Theorem C19_history_independent : forall (R : Num) (Coef D : Type)
 Proof. exact history_independent_fits. Qed.
 Print Assumptions C19_history_independent.
 
+(* The stop test applies to every pass, the first included (source tie: C19_driver_stop_test, props/C19_driver.v): if the
+   first recorded difference is below tol, the driver returns the first-pass fit untouched -- baseline and coefficients of
+   pass 0, weights and fit data not updated, one tol_history entry -- whichever strategy runs.  Hence whatever one pass
+   reproduces (C19_poly_exact_partial) the full iteration with default tol / max_iter reproduces. *)
+Theorem C19_first_pass_exit : forall (R : Num) (Coef D : Type)
+    (local_fit : list (list (T R)) -> list (T R) -> Coef) (predict : list (T R) -> Coef -> T R)
+    (reldiff : list (T R) -> list (T R) -> D) (below : D -> bool)
+    (update : list (T R) -> list (T R) -> list (T R) -> list (T R) * list (T R)) (garbage : nat -> Z -> T R)
+    (x : list (T R)) (vander : list (list (T R))) (ncoef : nat) (N : Z)
+    (windows : list (Z * Z)) (fits : list Z) (skips : list (Z * Z)) (conserve : bool) (max_iter : nat) (s : dstate R Coef D),
+  let p := pass R Coef local_fit predict x vander ncoef N windows fits skips (mode_of conserve O) (garbage O)
+             (d_y _ _ _ s) (d_w _ _ _ s) (d_coefs _ _ _ s) (d_cache _ _ _ s) in
+  let b := fst (fst p) in
+  below (reldiff (d_base _ _ _ s) b) = true ->
+  let r := drive R Coef local_fit predict x vander ncoef N windows fits skips D reldiff below update garbage conserve (S max_iter) O s in
+  d_base _ _ _ r = b /\ d_coefs _ _ _ r = snd (fst p) /\ d_w _ _ _ r = d_w _ _ _ s /\ d_y _ _ _ r = d_y _ _ _ s /\
+  d_hist _ _ _ r = reldiff (d_base _ _ _ s) b :: d_hist _ _ _ s.
+Proof. exact first_pass_exit. Qed.
+Print Assumptions C19_first_pass_exit.
+
 (* the same for any index lists without repeated fitted indices (what the equivalence really needs) *)
 Theorem C19_memory_equiv_nodup : forall (R : Num) (Coef : Type)
     (local_fit : list (list (T R)) -> list (T R) -> Coef) (predict : list (T R) -> Coef -> T R)
